@@ -359,10 +359,12 @@ impl Database {
             self.catalog.clone(),
         )?;
 
-        let child = tx_ctx.create_child()?;
+        // A failing statement aborts the transaction, but an aborted UPDATE is not hidden by the abort
+        // alone (the new version carries the inserter's id): the statement takes back what it wrote.
+        let child = tx_ctx.create_child()?.with_statement_journal();
         let result = self.task_runner.run_with_result(move |_ctx| {
             let runner = QueryRunner::new(child, logger.clone());
-            let result_guard = runner.prepare_and_run(&sql).map_err(box_err)?;
+            let result_guard = runner.prepare_and_run_atomically(&sql).map_err(box_err)?;
 
             logger.log_commit().map_err(box_err)?;
             #[cfg(feature = "verif")]
